@@ -115,6 +115,12 @@ RoundEndReasons ==
     \cup (IF \E r \in 1..Len(reqs) : reqs[r].answers > 1 THEN {"duplicate_reply"} ELSE {})
 
 
+\* the configured batch size is the effective one: no signed root covers more requests than batch_size
+BatchReasons(b) ==
+    IF b = 0 THEN {}
+    ELSE IF \E rid \in {x[1] : x \in roots} : Cardinality({x[3] : x \in {y \in roots : y[1] = rid}}) > b
+         THEN {"batch_larger_than_configured"} ELSE {}
+
 \* property-level invariants, evaluated in every state of every validated trace
 AtMostOnce == \A r \in 1..Len(reqs) : reqs[r].answers <= 1
 OnlyWellFormed == \A r \in 1..Len(reqs) : reqs[r].cls = "mustnot" => reqs[r].answers = 0
